@@ -72,6 +72,8 @@ int  sim_lockmon_held(const char **desc);
 extern uint64_t sim_lock_ops;                 // lock+unlock operations since sim_reset
 // first misuse seen (unlock-not-held, relock of non-recursive, free-held, cond-wait-would-block), or NULL
 const char *sim_lockmon_error(void);
+void sim_lockmon_fail_try(int n);             // the next n try-lock attempts fail as if another thread held the lock (0 = off)
+extern uint64_t sim_try_failed;
 
 // ---- fd ledger -----------------------------------------------------------------------
 int  sim_fd_count(void);                      // open fds in 0..1023
